@@ -113,6 +113,20 @@ def collections(rt):
         for nm, c in (("set_index", src.set_index("y")), ("set_index npartitions=same", src.set_index("y", npartitions=len(pieces))), ("set_index npartitions=2", src.set_index("y", npartitions=2)),
                       ("sort_values", src.sort_values("y")), ("set_index then loc", src.set_index("y").loc[2:5]), ("set_index index", src.set_index("y").index)):
             out.append(("presorted pieces cut at %s: %s" % (cuts, nm), c, None))
+    # period index converted to timestamps (divisions converted with the same freq / how as the data)
+    per = pd.DataFrame({"x": range(14)}, index=pd.period_range("2020-01", periods=14, freq="M"))
+    for npart in (1, 3):
+        dper = rt.dx.from_pandas(per, npartitions=npart)
+        for freq in (None, "M", "D", "Q"):
+            for how in ("start", "end"):
+                c = try_(lambda: dper.to_timestamp(freq=freq, how=how))
+                if c[0] == "ok":
+                    out.append(("period index /%d: to_timestamp(freq=%s, how=%s)" % (npart, freq, how), c[1], None))
+                    out.append(("period index /%d: to_timestamp(freq=%s, how=%s) + 1" % (npart, freq, how), c[1] + 1, None))
+        out.append(("period index /%d: source" % npart, dper, None))
+    dts = rt.dx.from_pandas(pd.DataFrame({"x": range(14)}, index=pd.date_range("2020-01-01", periods=14, freq="D")), npartitions=3)
+    out += [("datetime index: shift freq", dts.shift(2, freq="D"), None), ("datetime index: loc", dts.loc["2020-01-03":"2020-01-09"], None), ("datetime index: resample sum", dts.resample("3D").sum(), None),
+            ("datetime index: repartition freq", dts.repartition(freq="5D"), None), ("datetime index: to_period", try_(lambda: dts.to_period("D"))[1] if try_(lambda: dts.to_period("D"))[0] == "ok" else None, None)]
     return [o for o in out if o[1] is not None]
 
 
@@ -139,6 +153,22 @@ def lengths(run, rt):
             "explode": (df.assign(l=df.a.map(lambda v: [v, v], meta=("a", "object"))).explode("l") if False else df, pdf),
             "concat": (rt.dx.concat([df, df]), pd.concat([pdf, pdf])), "dropna": (df.dropna(), pdf.dropna()),
             "merge": (df.merge(df, on="b"), pdf.merge(pdf, on="b")),
+            "concat axis=1": (rt.dx.concat([df[["a"]], df[["c"]]], axis=1), pd.concat([pdf[["a"]], pdf[["c"]]], axis=1)),
+            "concat axis=1 three": (rt.dx.concat([df[["a"]], df[["b"]], df[["c"]]], axis=1), pd.concat([pdf[["a"]], pdf[["b"]], pdf[["c"]]], axis=1)),
+            "concat axis=1 then column": (rt.dx.concat([df[["a"]], df[["c"]]], axis=1)["c"], pd.concat([pdf[["a"]], pdf[["c"]]], axis=1)["c"]),
+            "concat axis=1 then elemwise": (rt.dx.concat([df[["a"]], df[["c"]]], axis=1) + 1, pd.concat([pdf[["a"]], pdf[["c"]]], axis=1) + 1),
+            "concat axis=1 with a filtered operand": (rt.dx.concat([df[["a"]], df[df.b > 1][["c"]]], axis=1), pd.concat([pdf[["a"]], pdf[pdf.b > 1][["c"]]], axis=1)),
+            "concat three frames": (rt.dx.concat([df, df[["a"]], df]), pd.concat([pdf, pdf[["a"]], pdf])),
+            "empty projection": (df[[]], pdf[[]]), "elemwise of two filters": (df[df.b > 1].a + df.a, pdf[pdf.b > 1].a + pdf.a),
+            "scalar + series": (df.a.sum() + df.a, pdf.a.sum() + pdf.a), "series + scalar": (df.a + df.a.sum(), pdf.a + pdf.a.sum()),
+            "where": (df.where(df.a > 3), pdf.where(pdf.a > 3)), "mask": (df.a.mask(df.b > 1), pdf.a.mask(pdf.b > 1)), "isin filter": (df[df.b.isin([1, 2])], pdf[pdf.b.isin([1, 2])]),
+            "cumsum": (df.cumsum(), pdf.cumsum()), "shift": (df.shift(1), pdf.shift(1)), "diff": (df.a.diff(), pdf.a.diff()), "astype": (df.astype({"a": "float64"}), pdf),
+            "set_index": (df.set_index("a"), pdf), "reset_index": (df.reset_index(), pdf), "to_frame": (df.a.to_frame(), pdf), "index": (df.index, pdf.index),
+            "nlargest": (df.nlargest(3, "a"), pdf.nlargest(3, "a")), "tail": (df.tail(3, compute=False), pdf.tail(3)), "sample frac=1": (df.sample(frac=1.0, random_state=1), pdf),
+            "str accessor": (df.assign(s=df.a.astype(str)).s.str.upper(), pdf.a.astype(str)), "explode-like map_partitions": (df.map_partitions(lambda p: pd.concat([p, p])), pd.concat([pdf, pdf])),
+            "merge left": (df.merge(df[["b"]].drop_duplicates(), on="b", how="left"), pdf.merge(pdf[["b"]].drop_duplicates(), on="b", how="left")),
+            "join": (df[["a"]].join(df[["c"]]), pdf[["a"]].join(pdf[["c"]])), "loc slice": (df.loc[2:7], pdf.loc[2:7]), "partitions[[1,0]]" if npart > 1 else "partitions-all": (df.partitions[[1, 0]] if npart > 1 else df, pdf),
+            "partitions[[0,0]]": (df.partitions[[0, 0]], None) if npart > 1 else (df, pdf),
             "groupby": (df.groupby("b").sum(), pdf.groupby("b").sum()),
         }
         for nm, (c, p) in cases.items():
